@@ -57,6 +57,7 @@ func init() {
 			obMapRangeOrder(c, "C11.3")
 			obFlagGate(c, "C11.4")
 			obEvalReadOnly(c, "C11.2b")
+			obQueryComplete(c, "C11.5")
 		},
 	}
 }
